@@ -239,7 +239,9 @@ def ell_task(cone, W, slack_kind, tier):
     K, m = W.shape
     order = make_order(W)
     Wq = Wz(W)
-    ex = Explorer(f"ell_is_covered[{cone},{slack_kind}]", query_timeout_ms=180000)
+    pre = {"violations": []}
+    nval = _validate_ell(W, 10 if tier == "quick" else 40, pre)
+    ex = Explorer(f"ell_is_covered[{cone},{slack_kind}]", query_timeout_ms=15000 if pre["violations"] else 90000)
 
     def body(ctx):
         proxy = NpProxy(hooks={"inv": inv_hook})
@@ -296,7 +298,7 @@ def ell_task(cone, W, slack_kind, tier):
             for extra in (wellc + [a1.e <= Fraction(1, 20), a2.e <= Fraction(1, 20)], wellc, []):
                 try:
                     m2 = ctx.satisfiable([z3.Not(claim)] + [sym.sbool(e) if not isinstance(e, z3.BoolRef) else e
-                                                          for e in extra], timeout_ms=60000)
+                                                          for e in extra], timeout_ms=ex.query_timeout_ms // 3)
                 except Inconclusive:
                     m2 = None
                 if m2 is None:
@@ -318,7 +320,8 @@ def ell_task(cone, W, slack_kind, tier):
         if not ex.witnessed.get(lab):
             r["inconclusive"].append(f"vacuity: outcome {lab} never reached")
     r["config"] = {"cone": cone, "m": m, "K": K, "slack": slack_kind, "region": "ellipsoid"}
-    r["concrete_validations"] = _validate_ell(W, 10 if tier == "quick" else 40, r)
+    r["concrete_validations"] = nval
+    r["violations"].extend(pre["violations"])
     return r
 
 
